@@ -1,0 +1,110 @@
+//go:build verif
+
+package lime
+
+import (
+	"net"
+	"sync/atomic"
+)
+
+// This file is only compiled with the "verif" build tag. It exposes the hooks
+// used by the external runtime-verification harness. Nothing here changes the
+// behaviour of the library: constructors build the very same transport the
+// dial/accept paths build, accessors are read-only, and the point/state
+// observers are no-ops until a handler is installed.
+
+var verifPointHandler atomic.Value  // func(string)
+var verifStateObserver atomic.Value // func(client bool, sessionID string, from, to SessionState)
+
+// VerifSetPointHandler installs (or, with nil, removes) the function called at
+// every instrumentation point.
+func VerifSetPointHandler(f func(name string)) {
+	if f == nil {
+		f = func(string) {}
+	}
+	verifPointHandler.Store(f)
+}
+
+// VerifSetStateObserver installs (or, with nil, removes) the function called on
+// every channel state change, with the old and the new value.
+func VerifSetStateObserver(f func(client bool, sessionID string, from, to SessionState)) {
+	if f == nil {
+		f = func(bool, string, SessionState, SessionState) {}
+	}
+	verifStateObserver.Store(f)
+}
+
+func verifPoint(name string) {
+	if f, ok := verifPointHandler.Load().(func(string)); ok {
+		f(name)
+	}
+}
+
+func verifState(c *channel, from, to SessionState) {
+	if f, ok := verifStateObserver.Load().(func(bool, string, SessionState, SessionState)); ok {
+		f(c.client, c.sessionID, from, to)
+	}
+}
+
+// VerifNewTCPTransport builds the real TCP transport (same setConn, ctxConn,
+// encoder, decoder and limited reader as DialTcp / tcpTransportListener.Accept)
+// over a caller-supplied net.Conn.
+func VerifNewTCPTransport(conn net.Conn, server bool, config *TCPConfig) Transport {
+	if config == nil {
+		config = &defaultTCPConfig
+	}
+	t := tcpTransport{TCPConfig: *config}
+	t.server = server
+	t.setConn(conn)
+	t.encryption = SessionEncryptionNone
+	return &t
+}
+
+// VerifTransport returns the transport the channel is using.
+func (c *channel) VerifTransport() Transport {
+	return c.transport
+}
+
+// VerifPendingCommands returns the number of commands awaiting a response.
+func (c *channel) VerifPendingCommands() int {
+	c.processingCmdsMu.RLock()
+	defer c.processingCmdsMu.RUnlock()
+	return len(c.processingCmds)
+}
+
+// VerifListenerAddr returns the address a TCP or WebSocket transport listener
+// is actually bound to (nil when not listening or for other listeners).
+func VerifListenerAddr(l TransportListener) net.Addr {
+	switch tl := l.(type) {
+	case *tcpTransportListener:
+		tl.mu.RLock()
+		defer tl.mu.RUnlock()
+		if tl.listener != nil {
+			return tl.listener.Addr()
+		}
+	case *websocketTransportListener:
+		tl.mu.RLock()
+		defer tl.mu.RUnlock()
+		if tl.listener != nil && tl.srv != nil {
+			return tl.listener.Addr()
+		}
+	}
+	return nil
+}
+
+// VerifConfig returns the configuration the server was built with.
+func (srv *Server) VerifConfig() *ServerConfig {
+	return srv.config
+}
+
+// VerifMux returns the envelope mux the server was built with.
+func (srv *Server) VerifMux() *EnvelopeMux {
+	return srv.mux
+}
+
+// VerifChannel returns the client's current channel (may be nil).
+func (c *Client) VerifChannel() *ClientChannel {
+	c.mu.RLock()
+	defer c.mu.RUnlock()
+	return c.channel
+}
